@@ -109,6 +109,19 @@ VARIANTS = {'-unc': UNC_KINDS, '-tgt': TGT_KINDS, '-attr': ('unit-attr',)}
 UNC_ABSE = 0.25          # absolute uncertainty attached in the *-unc cases
 UNC_RELE = 5.0           # relative uncertainty (percent)
 
+# conversion walks: one quantity converted in place along every path of WALK_DEPTH steps (no unit twice in a row)
+# through a set of mutually convertible spellings; after every step the value is compared with the formulas applied
+# step by step to the *written* start value (reference trace), and the reported unit with the library's own spelling
+WALK_DEPTH = dict(quick=3, thorough=4)
+T_WALK_UNITS = ['K', 'mK', 'kK', 'Cel', 'degF', 'degR']
+T_WALK_VALUES = [0.001, 100, 273.15]
+LOG_WALK_GROUPS = [
+    (['dBm', 'dBW', 'dBmW', 'BW', 'W', 'mW', 'kW'], {'level': [-30, 3, 20], 'linear': [0.02, 50]}),
+    (['dBV', 'dBuV', 'BV', 'V', 'mV', 'uV'], {'level': [-30, 3, 20], 'linear': [0.02, 50]}),
+    (['dB', 'B', 'Np', 'cNp', 'PR'], {'level': [-3, 3, 20], 'linear': [0.02, 50]}),
+    (['dB', 'dNp', 'Np', 'AR'], {'level': [-3, 3], 'linear': [0.5, 50]}),
+]
+
 _CASES = {}
 _PREF = None
 _LINP = None
@@ -403,7 +416,55 @@ def cases(tier, seed):
                     add('level-aug', u, '+=', 'scalar', (x,), (y,))
                     if x > y:
                         add('level-aug', u, '-=', 'scalar', (x,), (y,))
+    depth = WALK_DEPTH[tier]
+
+    def paths(nodes, start, n):
+        fr = [(start,)]
+        for _ in range(n):
+            fr = [pth + (v,) for pth in fr for v in nodes if v != pth[-1]]
+        return [pth[1:] for pth in fr]
+    for u in T_WALK_UNITS:
+        if u not in tunits:
+            raise HarnessError("walk unit %s is not an admissible temperature spelling" % u)
+        for pth in paths(T_WALK_UNITS, u, depth):
+            for x in T_WALK_VALUES + ([-40] if u in ('Cel', 'degF') else []):
+                add('temp-walk', u, pth, x)
+    for nodes, vals in LOG_WALK_GROUPS:
+        for u in nodes:
+            kind = 'level' if _is_level(u) else 'linear'
+            for pth in paths(nodes, u, depth):
+                for x in vals[kind]:
+                    add('log-walk', u, pth, x)
     _CASES[key] = out
+    return out
+
+
+def _is_level(u):
+    b = l_split(u)[1]
+    return b in LEVELS or b in ('B', 'Np')
+
+
+def _walk_step_ref(x, u, v):
+    """one step of the reference trace for a level / linear walk"""
+    lu, lv = _is_level(u), _is_level(v)
+    if lu and lv:
+        return level_to_level(x, u, v)
+    if lu:
+        return level_to_linear(x, u, v)
+    if lv:
+        return linear_to_level(x, u, v)
+    (pu, bu), (pv, bv) = l_split(u), l_split(v)
+    assert bu == bv
+    return x * 10.0 ** SI[pu] / 10.0 ** SI[pv]
+
+
+def _walk(x, u, pth):
+    from scinumtools.units import Quantity
+    q = Quantity(x, u)
+    out = []
+    for v in pth:
+        q.to(v)
+        out.append((q.value(), q.units(), Quantity(1, v).units()))
     return out
 
 
@@ -581,6 +642,34 @@ def check_case(c, _unc=None):
                 rec["tags"] = sorted(set(rec["tags"]) | {("uncertainty=" if suffix == '-unc' else "variant=") + var})
             return rec
     unc = _unc                                   # variant of the case (None for the plain one)
+    if sub in ('temp-walk', 'log-walk'):
+        _, u, pth, x = c
+        pth = tuple(pth)
+        o = outcome(_walk, x, u, pth)
+        if sub == 'temp-walk':
+            kel = t_to_kelvin(x, u)
+            exps = [float(t_from_kelvin(kel, v)) for v in pth]
+            tols = [(REL, REL * t_scale(v)) for v in pth]
+        else:
+            exps, cur, prev = [], float(x), u
+            for v in pth:
+                cur = _walk_step_ref(cur, prev, v)
+                exps.append(cur)
+                prev = v
+            tols = [(REL, 1e-9 / 10.0 ** SI[l_split(v)[0]] if _is_level(v) else 0.0) for v in pth]
+        tsub = 'temp' if sub == 'temp-walk' else 'log'
+        if o[0] == 'err':
+            return failure(sub, [sub, u, list(pth), x], exps, list(o), _tags(tsub, u, pth[-1]) + ['walk'],
+                           "raises:" + o[1] + ":" + _short(o[2]))
+        for i, ((got, units, spelled), exp, tol) in enumerate(zip(o[1], exps, tols)):
+            if units != spelled:
+                return failure(sub, [sub, u, list(pth), x], [exp, spelled], [got, units],
+                               _tags(tsub, ([u] + list(pth))[i], pth[i]) + ['walk', 'step=%d' % i], "wrong-units-after-step")
+            if not _close(got, exp, *tol):
+                return failure(sub, [sub, u, list(pth), x], exps, [g for g, _, _ in o[1]],
+                               _tags(tsub, ([u] + list(pth))[i], pth[i]) + ['walk', 'step=%d' % i],
+                               "wrong-value:rel~" + _relclass(got, exp, t_scale(pth[i]) if tsub == 'temp' else 0.0))
+        return None
     if sub == 'temp':
         _, u, v, x = c
         exp = float(t_from_kelvin(t_to_kelvin(x, u), v))
@@ -836,6 +925,8 @@ def run_shard(desc):
             leak = isolation.tables_restore()
             if leak:
                 sh.add_extra("table_leaks", 1)
+        if c[0] in ('temp-walk', 'log-walk'):
+            sh.transitions += len(c[2])
         if c[0] in ('temp', 'log-lin', 'log-direct', 'level-diff') and hash(c) % 997 == 0:
             sh.sample(list(c), limit=2)
     leak = isolation.tables_restore()
@@ -850,13 +941,15 @@ def run_shard(desc):
 def replay(rec):
     isolation.tables_restore()
     c = rec["case"]
+    if c[0] in ('temp-walk', 'log-walk'):
+        c = [c[0], c[1], tuple(c[2]), c[3]]
     return check_case(tuple(c))
 
 
 def finish(total, tier, seed):
     h = total.hist
     subs = ['temp', 'temp-rt', 'log-lin', 'log-lin-rt', 'log-frac', 'log-log', 'log-direct', 'log-direct-rt',
-            'level-sum', 'level-diff', 'level-seq', 'level-array', 'level-aug', 'log-frac2', 'log-frac2-rt', 'log-refused', 'temp-array', 'log-lin-array'] + [x + suf for x in UNC_SUBS for suf in VARIANTS if not (x == 'log-frac' and suf == '-attr')]
+            'level-sum', 'level-diff', 'level-seq', 'level-array', 'level-aug', 'log-frac2', 'log-frac2-rt', 'log-refused', 'temp-array', 'log-lin-array', 'temp-walk', 'log-walk'] + [x + suf for x in UNC_SUBS for suf in VARIANTS if not (x == 'log-frac' and suf == '-attr')]
     per = {s: h.get(s + ":ok", 0) + h.get(s + ":fail", 0) for s in subs}
     empty = [s for s, n in per.items() if n == 0]
     if empty:
@@ -869,7 +962,10 @@ def finish(total, tier, seed):
                             level_values=LEVEL_VALUES + (LEVEL_MORE if tier == "thorough" else []),
                             linear_values=LIN_VALUES + (LIN_MORE if tier == "thorough" else []),
                             sum_values=SUM_VALUES + (SUM_MORE if tier == "thorough" else []), linear_prefixes=lin_prefixes(tier, seed),
-                            kelvin_prefixes=len(_PREF['K'])),
+                            kelvin_prefixes=len(_PREF['K']),
+                            walks=dict(depth=WALK_DEPTH[tier], temperature_units=T_WALK_UNITS,
+                                       temperature_values=T_WALK_VALUES,
+                                       level_groups=[g for g, _ in LOG_WALK_GROUPS])),
                 window=("all %d prefix windows" % NWINDOWS) if tier == "thorough" else
                        "linear-side prefix window %d of %d (plus the fixed core); everything else is enumerated "
                        "completely by every run" % (seed % NWINDOWS, NWINDOWS), caps_hit=[])
@@ -890,7 +986,11 @@ MANIFEST = dict(
          "BaseUnits / Quantity object, and with the source built as x*Unit().<u> after an in-place conversion of the bare "
          "attribute; augmented assignments a+=b, a-=b; array conversions asked twice; fraction forms whose linear parts "
          "carry factors (W/cm2, mW/MHz ...); undocumented level pairs: a refused conversion must leave the quantity intact. "
-         "46 490 cases per quick run, 117 584 in the thorough tier, every one executed.",
+         "Conversion walks: one quantity converted in place along every path of 3 (thorough 4) steps through K/mK/kK/"
+         "Cel/degF/degR and through four groups of mutually convertible level/linear spellings (dBm..kW, dBV..uV, "
+         "dB/B/Np/cNp/PR, dB/dNp/Np/AR), value and reported unit compared after every step with the formulas applied "
+         "step by step to the written start value (9 371 walks quick). "
+         "55 861 cases per quick run, every one executed.",
     note="Numerical agreement to 1e-9 relative (identity 1e-12), not bit-exact; magnitudes are a finite alphabet of "
          "representatives, other magnitudes rely on the formulas being value-independent; prefix `da`, undocumented "
          "level pairs and compound expressions beyond X/Hz are outside the alphabet; oracle formulas are hand-written "
